@@ -1,4 +1,4 @@
-import Scion.Proofs.Combinator
+import Scion.Proofs.CombGraph
 import Scion.Gen.Comb
 /-!
 # C28 — Combined paths are well-formed and their metadata is accurate
@@ -300,6 +300,58 @@ theorem combine_mem (ups cores downs : List Seg) (src dst : Nat) (all : Bool) (p
   split at hp
   · next q hq => cases hp; exact hq
   · cases hp
+
+/-! ### the same for `Combine` over the model of the multigraph search of graph.go -/
+
+/-- every path returned by the graph version passes no AS more than twice and is the `Path` of a
+join of the specification (in particular: at most one up, one core, one down segment in order) -/
+theorem combineDMG_mem (ups cores downs : List Seg) (src dst : Nat) (all : Bool) (ps : List Path)
+    (p : Path) (hc : combineDMG ups cores downs src dst all = some ps) (h : p ∈ ps) :
+    AtMostTwice p ∧ ∃ es ∈ allJoins ups cores downs src dst,
+      pathOf es = .ok p ∧ es.map (·.kind) ∈ kindShapes := by
+  unfold combineDMG at hc
+  split at hc
+  · cases hc
+  · next g hg =>
+    simp only [Option.some.injEq] at hc
+    subst hc
+    have h2 : p ∈ filterLongPaths (sortByWeight (pathsOf (getPaths g src dst))) := by
+      split at h
+      · exact h
+      · exact (filterDuplicates_sublist _).subset h
+    rw [filterLong_mem] at h2
+    refine ⟨h2.2, ?_⟩
+    have h3 := (sortByWeight_perm _).mem_iff.1 h2.1
+    unfold pathsOf at h3
+    rw [List.mem_filterMap] at h3
+    obtain ⟨es, hes, hp⟩ := h3
+    have hj : es ∈ allJoins ups cores downs src dst := by
+      obtain ⟨c, hch, rfl⟩ := getPaths_iff_chain.1 hes
+      exact (Scion.Combinator.allJoins_iff ..).2
+        (chain_to_join (fun x hx => dmg_sound hg hx) hch).isJoin
+    refine ⟨es, hj, ?_, allJoins_kinds hj⟩
+    split at hp
+    · next q hq => cases hp; exact hq
+    · cases hp
+
+/-- … ordered by non-decreasing weight, and without two paths of the same interface sequence
+unless identical paths are requested -/
+theorem combineDMG_sorted_unique (ups cores downs : List Seg) (src dst : Nat) (all : Bool)
+    (ps : List Path) (hc : combineDMG ups cores downs src dst all = some ps) :
+    ps.Pairwise (fun a b => a.weight ≤ b.weight) ∧
+      (all = false → ps.Pairwise fun a b => a.intfs ≠ b.intfs) := by
+  unfold combineDMG at hc
+  split at hc
+  · cases hc
+  · next g hg =>
+    simp only [Option.some.injEq] at hc
+    subst hc
+    have h1 := (sortByWeight_sorted (pathsOf (getPaths g src dst))).sublist (filterLong_sublist _)
+    cases all with
+    | true => exact ⟨by simpa using h1, by simp⟩
+    | false =>
+      simp only [Bool.false_eq_true, if_false]
+      exact ⟨h1.sublist (filterDuplicates_sublist _), fun _ => filterDuplicates_unique _⟩
 
 /-! ### facts regenerated from the source (T3) -/
 
